@@ -1,0 +1,7 @@
+//go:build !verif
+
+package mpx
+
+import "github.com/basecomplextech/baselibrary/bin"
+
+func vtr(event string, id bin.Bin128, a, b int64) {}
